@@ -174,3 +174,98 @@ def conforms(v, t, classes) -> bool:
             return hasattr(v, "__next__") or all(conforms(x, t[1], classes) for x in v)
         return False
     return True
+
+
+# ----------------------------------------------------------------------------- identities (call histories) and result edits
+def identity_snapshot(o):
+    """{id(container): (container, identities of what its slots hold)} for every builtin container (list, dict, set) and
+    every object array reachable from o: WHICH object sits in which slot, not only what it is worth.  A caller that
+    keeps a list and later finds other (even equal) arrays in its slots has had its list modified."""
+    _, objs = reachable(o)
+    out = {}
+    for x in objs.values():
+        if isinstance(x, list):
+            out[id(x)] = (x, ("list", tuple(id(i) for i in x)))
+        elif isinstance(x, dict):
+            out[id(x)] = (x, ("dict", tuple((k if isinstance(k, (str, int, float, bool, type(None))) else id(k), id(v))
+                                             for k, v in x.items())))
+        elif isinstance(x, set):
+            out[id(x)] = (x, ("set", tuple(sorted(id(i) for i in x))))
+    for a in reachable(o)[0]:
+        if a.dtype.hasobject and not a.dtype.names:
+            out[id(a)] = (a, ("ndo", tuple(id(i) for i in a.ravel().tolist())))
+    return out
+
+
+def identity_changed(before) -> bool:
+    for obj, old in before.values():
+        if isinstance(obj, list):
+            new = ("list", tuple(id(i) for i in obj))
+        elif isinstance(obj, dict):
+            new = ("dict", tuple((k if isinstance(k, (str, int, float, bool, type(None))) else id(k), id(v)) for k, v in obj.items()))
+        elif isinstance(obj, set):
+            new = ("set", tuple(sorted(id(i) for i in obj)))
+        else:
+            new = ("ndo", tuple(id(i) for i in obj.ravel().tolist()))
+        if new != old:
+            return True
+    return False
+
+
+class _Sentinel:
+    pass
+
+
+def edit_and_restore(result, check):
+    """`editing a result does not alter the argument it was computed from`, literally: every writable array reachable
+    from the result is overwritten (all bytes inverted), every list / dict / set / bytearray reachable from it gets an
+    extra item; `check()` is then called (it compares the arguments with their snapshots) and everything is put back
+    exactly as it was, whatever happens.  Returns check()'s value."""
+    arrays, objs = reachable(result)
+    saved_arrays, saved_objs, edited = [], [], []
+    try:
+        for a in sorted(arrays, key=lambda z: -z.nbytes):
+            if a.size == 0 or a.dtype.itemsize == 0 or a.dtype.hasobject or not a.flags.writeable:
+                continue
+            if any(np.shares_memory(a, e) for e in edited):
+                continue  # (part of) it is overwritten already: a second inversion would put the old bytes back
+            edited.append(a)
+            try:
+                raw = a.view(np.uint8) if a.flags.c_contiguous and a.dtype.itemsize else None
+            except (ValueError, TypeError):
+                raw = None
+            if raw is not None:
+                saved_arrays.append((raw, raw.copy()))
+                np.invert(raw, out=raw)
+            else:  # non-contiguous / structured with padding: element-wise through a byte copy
+                old = a.copy()
+                saved_arrays.append((a, old))
+                flipped = np.frombuffer(bytes(255 - b for b in old.tobytes()), dtype=old.dtype).reshape(old.shape)
+                a[...] = flipped
+        s = _Sentinel()
+        for x in objs.values():
+            if isinstance(x, list):
+                x.append(s)
+                saved_objs.append((x, "list"))
+            elif isinstance(x, dict):
+                x[s] = s
+                saved_objs.append((x, s))
+            elif isinstance(x, set):
+                x.add(s)
+                saved_objs.append((x, s))
+            elif isinstance(x, bytearray) and len(x):
+                x[0] ^= 0xFF
+                saved_objs.append((x, "ba"))
+        return check()
+    finally:
+        for x, how in reversed(saved_objs):
+            if how == "list":
+                x.pop()
+            elif how == "ba":
+                x[0] ^= 0xFF
+            elif isinstance(x, dict):
+                x.pop(how, None)
+            else:
+                x.discard(how)
+        for a, old in reversed(saved_arrays):
+            a[...] = old
